@@ -322,6 +322,65 @@ static std::string doTrain(std::vector<std::string> const& t){
 }
 
 
+// retrain F bias shrink cache C eps kernel cls : RE-USE of a model object.  The same KernelClassifier is trained on the
+// k-class data (k > 2, formulation F) and then, with the same trainer settings and kernel object, on the two-class problem
+// "class cls against the rest" over the SAME input container.  The second training must not depend on the history of
+// the model object: it has to give exactly what a fresh model gives (a k-column coefficient matrix is not a warm start
+// for the binary machine).  Also the other direction: a model trained on two-class data and then on the k-class data.
+static std::string doRetrain(std::vector<std::string> const& t){
+	if(t.size() != 9 || W.n == 0) return "bad-op";
+	bool ok; McSvm type = parseType(t[1], ok); if(!ok) return "bad-op";
+	bool bias = t[2] == "1", shrink = t[3] == "1";
+	long cache = std::stol(t[4]);
+	double C = std::stod(t[5]), eps = std::stod(t[6]);
+	std::string kern = t[7];
+	unsigned int cls = (unsigned int)std::stoul(t[8]);
+	std::ostringstream os, orc;
+	ClassificationDataset data = createLabeledDataFromRange(W.x, W.y, 256);
+	std::size_t classes = numberOfClasses(data);
+	if(classes < 3 || cls >= classes) return "bad-op";
+	LinearKernel<RealVector> lin;
+	PolynomialKernel<RealVector> poly(2, 1.0);
+	GaussianRbfKernel<RealVector> rbf(0.125);
+	AbstractKernelFunction<RealVector>* kernel = kern == "poly" ? (AbstractKernelFunction<RealVector>*)&poly
+		: kern == "rbf" ? (AbstractKernelFunction<RealVector>*)&rbf : (AbstractKernelFunction<RealVector>*)&lin;
+	CSvmTrainer<RealVector, double> trainer(kernel, C, bias);
+	trainer.setMcSvmType(type);
+	trainer.sparsify() = false;
+	trainer.shrinking() = shrink;
+	trainer.stoppingCondition().minAccuracy = eps;
+	trainer.stoppingCondition().maxIterations = 300000ULL;
+	if(cache < 0) trainer.precomputeKernel() = true; else trainer.setCacheSize((std::size_t)cache);
+	ClassificationDataset two = oneVersusRestProblem(data, cls);
+	// (a) k classes first, then two classes, same model object
+	KernelClassifier<RealVector> reused, fresh;
+	trainer.train(reused, data);
+	std::size_t outK = reused.decisionFunction().outputShape().numElements();
+	trainer.train(reused, two);
+	trainer.train(fresh, two);
+	std::size_t out2 = reused.decisionFunction().outputShape().numElements();
+	RealMatrix const& A = reused.decisionFunction().alpha();
+	RealMatrix const& B = fresh.decisionFunction().alpha();
+	bool same = A.size1() == B.size1() && A.size2() == B.size2() && B.size2() == 1;
+	for(std::size_t i = 0; same && i != A.size1(); ++i) same = A(i,0) == B(i,0);
+	if(same && bias) same = reused.decisionFunction().offset().size() == 1 && reused.decisionFunction().offset()(0) == fresh.decisionFunction().offset()(0);
+	std::size_t wrong = 0;
+	for(std::size_t i = 0; i != W.n; ++i) if(reused(W.x[i]) != fresh(W.x[i])) ++wrong;
+	if(!same || out2 != 1 || wrong) orc << " !oracle model-reuse-two-class-after-multiclass";
+	// (b) two classes first, then k classes
+	KernelClassifier<RealVector> reused2, fresh2;
+	trainer.train(reused2, two);
+	trainer.train(reused2, data);
+	trainer.train(fresh2, data);
+	RealMatrix const& A2 = reused2.decisionFunction().alpha();
+	RealMatrix const& B2 = fresh2.decisionFunction().alpha();
+	bool same2 = A2.size1() == B2.size1() && A2.size2() == B2.size2();
+	for(std::size_t i = 0; same2 && i != A2.size1(); ++i) for(std::size_t c = 0; same2 && c != A2.size2(); ++c) same2 = A2(i,c) == B2(i,c);
+	if(!same2) orc << " !oracle model-reuse-multiclass-after-two-class";
+	os << "retrain classes=" << classes << " outputsK=" << outK << " outputs2=" << out2 << " differing_predictions=" << wrong;
+	return os.str() + orc.str();
+}
+
 // ltrain F bias C eps perm batch seed : the dedicated linear solvers (QpBoxLinear / QpMcLinear*) via LinearCSvmTrainer
 static std::string doLinearTrain(std::vector<std::string> const& t){
 	if(t.size() != 8 || W.n == 0) return "bad-op";
@@ -464,6 +523,8 @@ void c16MakeTables(std::string const& f, std::size_t c, QpSparseArray<double>& n
 	else throw std::runtime_error("unknown table family");
 }
 bool c16BoxOp(std::vector<std::string> const& t, std::string& out);
+bool c16SimplexOp(std::vector<std::string> const& t, std::string& out);      // c16x.cpp
+bool c16McLinOp(std::vector<std::string> const& t, std::string& out);        // c16l.cpp
 
 int main(int argc, char** argv){
 	std::string line;
@@ -489,13 +550,17 @@ int main(int argc, char** argv){
 			std::cout << "probes m=" << W.m << "\n";
 		}else if(t[0] == "train"){
 			std::cout << doTrain(t) << std::endl;
+		}else if(t[0] == "retrain"){
+			std::cout << doRetrain(t) << std::endl;
 		}else if(t[0] == "lnew" || t[0] == "lsweep"){
 			std::cout << doLinOp(t) << std::endl;
 		}else if(t[0] == "ltrain"){
 			std::cout << doLinearTrain(t) << std::endl;
 		}else{
 			std::string out;
-			if(c16BoxOp(t, out)) std::cout << out << std::endl;
+			if(c16McLinOp(t, out)) std::cout << out << std::endl;
+			else if(c16SimplexOp(t, out)) std::cout << out << std::endl;
+			else if(c16BoxOp(t, out)) std::cout << out << std::endl;
 			else std::cout << "bad-op\n";
 		}
 	}
